@@ -1,2 +1,788 @@
-// Package c04 binds the TLA+ specification of property C04 to the Go code.
+// Package c04 binds spec/arpa (Arpa.tla, ArpaAddr.tla, ArpaNames.tla,
+// ArpaTrace.tla) to netutil.IPToReversedAddr and netutil.IPFromReversedAddr.
+// The helpers shared with package c05 (the other half of the ARPA family) are
+// exported.
 package c04
+
+import (
+	"encoding/json"
+	"errors"
+	"fmt"
+	"math/rand/v2"
+	"net"
+	"net/netip"
+	"strconv"
+	"strings"
+	"unicode/utf8"
+
+	"github.com/AdguardTeam/golibs/netutil"
+
+	"verifharness/internal/vh"
+)
+
+func init() {
+	vh.Register("c04", "replay-addrs", replayAddrs)
+	vh.Register("c04", "replay-names", replayNames)
+	vh.Register("c04", "record", record)
+	vh.Register("c04", "probe", probe)
+}
+
+// ------------------------------------------------------------ shared model
+
+// Res is a decoding result in the shape Arpa.tla uses: rejection is
+// {false, 0, [], 0}.
+type Res struct {
+	Ok    bool  `json:"ok"`
+	Fam   int   `json:"fam"`
+	Bytes []int `json:"bytes"`
+	Bits  int   `json:"bits"`
+}
+
+// None is the rejection.
+func None() Res { return Res{Bytes: []int{}} }
+
+func (r Res) String() string {
+	if !r.Ok {
+		return "rejected"
+	}
+	if p, ok := r.Prefix(); ok {
+		if p.Bits() == p.Addr().BitLen() {
+			return p.Addr().String() + " (all " + strconv.Itoa(p.Bits()) + " bits)"
+		}
+		return p.String()
+	}
+	return fmt.Sprintf("{fam:%d bytes:%v bits:%d}", r.Fam, r.Bytes, r.Bits)
+}
+
+// Equal compares two results field by field.
+func (r Res) Equal(o Res) bool {
+	if r.Ok != o.Ok || r.Fam != o.Fam || r.Bits != o.Bits || len(r.Bytes) != len(o.Bytes) {
+		return false
+	}
+	for i := range r.Bytes {
+		if r.Bytes[i] != o.Bytes[i] {
+			return false
+		}
+	}
+	return true
+}
+
+// Addr is the netip.Addr a result denotes (fam 6 keeps the 16-byte form, so
+// an IPv4-mapped value stays Is4In6).
+func (r Res) Addr() (netip.Addr, bool) {
+	switch {
+	case r.Ok && r.Fam == 4 && len(r.Bytes) == 4:
+		return netip.AddrFrom4([4]byte{byte(r.Bytes[0]), byte(r.Bytes[1]), byte(r.Bytes[2]), byte(r.Bytes[3])}), true
+	case r.Ok && r.Fam == 6 && len(r.Bytes) == 16:
+		var b [16]byte
+		for i, v := range r.Bytes {
+			b[i] = byte(v)
+		}
+		return netip.AddrFrom16(b), true
+	}
+	return netip.Addr{}, false
+}
+
+// Prefix is the netip.Prefix a result denotes.
+func (r Res) Prefix() (netip.Prefix, bool) {
+	a, ok := r.Addr()
+	if !ok {
+		return netip.Prefix{}, false
+	}
+	return netip.PrefixFrom(a, r.Bits), true
+}
+
+// ResOfAddr projects what IPFromReversedAddr returned.
+func ResOfAddr(a netip.Addr, err error) Res {
+	if err != nil {
+		return None()
+	}
+	r := Res{Ok: true, Bits: a.BitLen(), Bytes: []int{}}
+	switch {
+	case a.Is4():
+		r.Fam = 4
+	case a.Is6():
+		r.Fam = 6
+	default:
+		// nil error with the zero Addr: not a rejection, not an address.
+		r.Fam = -1
+		return r
+	}
+	for _, b := range a.AsSlice() {
+		r.Bytes = append(r.Bytes, int(b))
+	}
+	if a.Zone() != "" {
+		r.Fam = -6
+	}
+	return r
+}
+
+// ResOfPrefix projects what PrefixFromReversedAddr / ExtractReversedAddr
+// returned.
+func ResOfPrefix(p netip.Prefix, err error) Res {
+	if err != nil {
+		return None()
+	}
+	r := ResOfAddr(p.Addr(), nil)
+	r.Bits = p.Bits()
+	return r
+}
+
+// Concretise turns a name given as labels of character tokens into the Go
+// string: tokens are joined, labels are joined by dots; "<XXXX>" is the rune
+// U+XXXX and "<BXX>" the raw byte XX.
+func Concretise(labels [][]string) string {
+	var b strings.Builder
+	for i, l := range labels {
+		if i > 0 {
+			b.WriteByte('.')
+		}
+		for _, t := range l {
+			if len(t) > 2 && t[0] == '<' && t[len(t)-1] == '>' {
+				body := t[1 : len(t)-1]
+				if body[0] == 'B' && len(body) == 3 {
+					if v, err := strconv.ParseUint(body[1:], 16, 8); err == nil {
+						b.WriteByte(byte(v))
+						continue
+					}
+				}
+				if v, err := strconv.ParseUint(body, 16, 32); err == nil {
+					b.WriteRune(rune(v))
+					continue
+				}
+			}
+			b.WriteString(t)
+		}
+	}
+	return b.String()
+}
+
+// Tokens is the inverse of Concretise: strings.Split(s, ".") with every
+// character as its own token; everything outside the plain printable ASCII
+// range (and the JSON / token meta characters) becomes a symbolic token.
+func Tokens(s string) [][]string {
+	parts := strings.Split(s, ".")
+	out := make([][]string, len(parts))
+	for i, p := range parts {
+		l := []string{}
+		for len(p) > 0 {
+			r, n := utf8.DecodeRuneInString(p)
+			switch {
+			case r == utf8.RuneError && n == 1:
+				l = append(l, fmt.Sprintf("<B%02X>", p[0]))
+			case r > 0x20 && r < 0x7f && r != '"' && r != '\\' && r != '<' && r != '>':
+				l = append(l, string(r))
+			default:
+				l = append(l, fmt.Sprintf("<%04X>", r))
+			}
+			p = p[n:]
+		}
+		out[i] = l
+	}
+	return out
+}
+
+// LowerASCII folds only A-Z.
+func LowerASCII(s string) string {
+	b := []byte(s)
+	for i, c := range b {
+		if c >= 'A' && c <= 'Z' {
+			b[i] = c + ('a' - 'A')
+		}
+	}
+	return string(b)
+}
+
+// CanonString strips ONE trailing dot and folds ASCII case (Canon of Arpa.tla
+// on the concrete string).
+func CanonString(s string) string { return LowerASCII(strings.TrimSuffix(s, ".")) }
+
+// IsASCII reports whether s has only bytes below 0x80.
+func IsASCII(s string) bool {
+	for i := 0; i < len(s); i++ {
+		if s[i] >= 0x80 {
+			return false
+		}
+	}
+	return true
+}
+
+// AddrErrorOK reports whether a non-nil error has the documented underlying
+// type *netutil.AddrError.
+func AddrErrorOK(err error) bool {
+	var ae *netutil.AddrError
+	return errors.As(err, &ae)
+}
+
+// NameVec is one line of name_vectors.ndjson (ArpaNames.tla).
+type NameVec struct {
+	Name  [][]string `json:"name"`
+	IP    Res        `json:"ip"`
+	Pfx   Res        `json:"pfx"`
+	Ext   Res        `json:"ext"`
+	Dom   bool       `json:"dom"`
+	ASCII bool       `json:"ascii"`
+}
+
+// Detail is what a mismatch carries so that --replay can re-execute it.
+type Detail struct {
+	Func  string `json:"func"`
+	Input string `json:"input"`
+	Want  Res    `json:"want"`
+	Got   Res    `json:"got"`
+	Err   string `json:"err,omitempty"`
+	Panic string `json:"panic,omitempty"`
+	Note  string `json:"note,omitempty"`
+}
+
+// Key is the mismatch key of a call.
+func Key(fn, input string) string { return fmt.Sprintf("%s(%q)", fn, input) }
+
+// CallIP runs IPFromReversedAddr under recover.
+func CallIP(s string) (r Res, err error, pv any, panicked bool) {
+	pv, panicked = vh.Try(func() {
+		var a netip.Addr
+		a, err = netutil.IPFromReversedAddr(s)
+		r = ResOfAddr(a, err)
+	})
+	return r, err, pv, panicked
+}
+
+// JudgeIP runs IPFromReversedAddr(s) and judges the observation: against the
+// predicted result when want is non-nil, and always against totality, the
+// documented error type and the statement's own relation "whatever is
+// accepted is the canonical name of the returned address".  what is empty
+// when the call conformed.
+func JudgeIP(s string, want *Res) (what string, d Detail) {
+	got, err, pv, panicked := CallIP(s)
+	d = Detail{Func: "IPFromReversedAddr", Input: s, Got: got}
+	if want != nil {
+		d.Want = *want
+	}
+	if err != nil {
+		d.Err = err.Error()
+	}
+	switch {
+	case panicked:
+		d.Panic = fmt.Sprint(pv)
+		return fmt.Sprintf("panic: %v", pv), d
+	case want != nil && !got.Equal(*want):
+		return fmt.Sprintf("returned %v, the specification predicts %v", got, *want), d
+	case err != nil && !AddrErrorOK(err):
+		return fmt.Sprintf("rejected with an error of type %T, documented: *netutil.AddrError", err), d
+	case !got.Ok:
+		return "", d
+	}
+	a, ok := got.Addr()
+	if !ok {
+		return "accepted but returned an invalid address", d
+	}
+	if a.Is4In6() {
+		// net.IP cannot tell ::ffff:a.b.c.d from a.b.c.d; the nibble name of a
+		// mapped address is accepted as the IPv6 address it spells.
+		return "", d
+	}
+	var back string
+	var berr error
+	if _, p := vh.Try(func() { back, berr = netutil.IPToReversedAddr(net.IP(a.AsSlice())) }); p || berr != nil || back != CanonString(s) {
+		d.Note = fmt.Sprintf("IPToReversedAddr(result) = %q, %v", back, berr)
+		return "accepted a name that is not the canonical name of the returned address", d
+	}
+	return "", d
+}
+
+// CheckIP judges one call against the predicted result and records a
+// mismatch; it reports whether the call conformed.
+func CheckIP(res *vh.Result, s string, want Res) bool {
+	what, d := JudgeIP(s, &want)
+	if what != "" {
+		res.Mismatch(Key("IPFromReversedAddr", s), what, d)
+	}
+	return what == ""
+}
+
+// Shrink reduces a failing name to a simpler one that still fails (fold and
+// strip the dot, drop labels, drop characters, turn characters into "x" or
+// "0"), so
+// that randomly found failures of one defect are reported under one key.
+func Shrink(s string, fails func(string) bool) string {
+	try := func(t string) bool {
+		if t != s && fails(t) {
+			s = t
+			return true
+		}
+		return false
+	}
+	try(CanonString(s))
+	for pass := 0; pass < 30; pass++ {
+		changed := false
+		for i := 0; ; i++ {
+			labels := strings.Split(s, ".")
+			if i >= len(labels) || len(labels) < 2 {
+				break
+			}
+			t := strings.Join(append(append([]string{}, labels[:i]...), labels[i+1:]...), ".")
+			if try(t) {
+				changed = true
+				i--
+			}
+		}
+		for i := 0; ; i++ {
+			rs := []rune(s)
+			if i >= len(rs) {
+				break
+			}
+			if try(string(rs[:i]) + string(rs[i+1:])) {
+				changed = true
+				i--
+			}
+		}
+		for i := 0; ; i++ {
+			rs := []rune(s)
+			if i >= len(rs) {
+				break
+			}
+			for _, c := range []rune{'x', '0'} {
+				if rs[i] == '.' || rs[i] == 'x' || rs[i] == c {
+					break
+				}
+				if try(string(rs[:i]) + string(c) + string(rs[i+1:])) {
+					changed = true
+					break
+				}
+			}
+		}
+		if !changed {
+			break
+		}
+	}
+	return s
+}
+
+// ReportShrunk records a mismatch found on a random input under the key of
+// its shrunk form; judge is the seed-independent part of the oracle.
+func ReportShrunk(res *vh.Result, fn, s, what string, d Detail, judge func(string) (string, Detail)) {
+	t := Shrink(s, func(x string) bool { w, _ := judge(x); return w != "" })
+	if t != s {
+		if w2, d2 := judge(t); w2 != "" {
+			d2.Note = strings.TrimSpace(d2.Note + fmt.Sprintf(" (shrunk from the random input %q)", s))
+			res.Mismatch(Key(fn, t), w2, d2)
+			return
+		}
+	}
+	res.Mismatch(Key(fn, s), what, d)
+}
+
+// ------------------------------------------------------------ replay: addresses
+
+type addrVar struct {
+	S string `json:"s"`
+	R Res    `json:"r"`
+}
+
+type addrVec struct {
+	IP   []int     `json:"ip"`
+	Name string    `json:"name"`
+	Vars []addrVar `json:"vars"`
+}
+
+func ipOf(bs []int) net.IP {
+	ip := make(net.IP, len(bs))
+	for i, b := range bs {
+		ip[i] = byte(b)
+	}
+	return ip
+}
+
+// checkEncode compares IPToReversedAddr(ip) with the predicted name.
+func checkEncode(res *vh.Result, ip net.IP, want string) bool {
+	var got string
+	var err error
+	pv, panicked := vh.Try(func() { got, err = netutil.IPToReversedAddr(ip) })
+	key := fmt.Sprintf("IPToReversedAddr(%v)", []byte(ip))
+	d := map[string]any{"func": "IPToReversedAddr", "ip": []int(nil), "want": want, "got": got}
+	ints := make([]int, len(ip))
+	for i, b := range ip {
+		ints[i] = int(b)
+	}
+	d["ip"] = ints
+	switch {
+	case panicked:
+		res.Mismatch(key, fmt.Sprintf("panic: %v", pv), d)
+	case err != nil:
+		d["err"] = err.Error()
+		res.Mismatch(key, "returned an error for a 4- or 16-byte address: "+err.Error(), d)
+	case got != want:
+		res.Mismatch(key, fmt.Sprintf("returned %q, the canonical name is %q", got, want), d)
+	default:
+		return true
+	}
+	return false
+}
+
+func replayAddrs(args []string) error {
+	if len(args) != 2 {
+		return fmt.Errorf("usage: replay-addrs <vectors> <result>")
+	}
+	res, err := vh.NewResult(args[1])
+	if err != nil {
+		return err
+	}
+	n, calls := 0, 0
+	dd := vh.NewDedup()
+	err = vh.ForEachVector(args[0], func(_ int, raw []byte) error {
+		var v addrVec
+		if err := json.Unmarshal(raw, &v); err != nil {
+			return err
+		}
+		if len(v.Vars) == 0 || (len(v.IP) != 4 && len(v.IP) != 16) {
+			return fmt.Errorf("malformed address vector %s", raw)
+		}
+		n++
+		ip := ipOf(v.IP)
+		if !dd.Add([]byte(ip)) {
+			return nil
+		}
+		if dd.N()%2503 == 1 {
+			res.Sample(map[string]any{"ip": ip.String(), "name": v.Name, "variants": len(v.Vars)})
+		}
+		calls++
+		checkEncode(res, ip, v.Name)
+		// The first variant is the canonical spelling; the others are only
+		// reported when the canonical one conforms (same defect otherwise).
+		for i, va := range v.Vars {
+			calls++
+			if !CheckIP(res, va.S, va.R) && i == 0 {
+				break
+			}
+		}
+		return nil
+	})
+	if err != nil {
+		return err
+	}
+	return res.Close(map[string]any{"vectors": n, "calls": calls, "distinct_nontrivial": dd.N()})
+}
+
+// ------------------------------------------------------------ replay: names
+
+func replayNames(args []string) error {
+	if len(args) != 2 {
+		return fmt.Errorf("usage: replay-names <vectors> <result>")
+	}
+	res, err := vh.NewResult(args[1])
+	if err != nil {
+		return err
+	}
+	n, accepted := 0, 0
+	dd := vh.NewDedup()
+	err = vh.ForEachVector(args[0], func(_ int, raw []byte) error {
+		var v NameVec
+		if err := json.Unmarshal(raw, &v); err != nil {
+			return err
+		}
+		if len(v.Name) == 0 {
+			return fmt.Errorf("vector without a name: %s", raw)
+		}
+		s := Concretise(v.Name)
+		n++
+		if !dd.Add([]byte(s)) {
+			return nil
+		}
+		if v.IP.Ok {
+			accepted++
+		}
+		if dd.N()%20011 == 1 {
+			res.Sample(map[string]any{"name": s, "IPFromReversedAddr": v.IP.String()})
+		}
+		CheckIP(res, s, v.IP)
+		return nil
+	})
+	if err != nil {
+		return err
+	}
+	return res.Close(map[string]any{"vectors": n, "calls": dd.N(), "distinct_nontrivial": dd.N(), "predicted_accepts": accepted})
+}
+
+// ------------------------------------------------------------ record (binding T)
+
+// Event is one line of arpa_trace.ndjson (ArpaTrace.tla).
+type Event struct {
+	Op    string     `json:"op"`
+	IP    []int      `json:"ip"`
+	Name  [][]string `json:"name"`
+	Dom   bool       `json:"dom"`
+	Ok    bool       `json:"ok"`
+	Fam   int        `json:"fam"`
+	Bytes []int      `json:"bytes"`
+	Bits  int        `json:"bits"`
+}
+
+// EventOf builds the trace event of one decoding call.
+func EventOf(op, s string, dom bool, r Res) Event {
+	return Event{Op: op, IP: []int{}, Name: Tokens(s), Dom: dom, Ok: r.Ok, Fam: r.Fam, Bytes: r.Bytes, Bits: r.Bits}
+}
+
+// RandAddr draws an address: 4 bytes, 16 bytes, sparse 16 bytes, IPv4-mapped
+// or nearly mapped.
+func RandAddr(rng *rand.Rand) net.IP {
+	special := []byte{0, 1, 9, 10, 15, 16, 99, 100, 127, 128, 199, 200, 249, 250, 255}
+	pick := func() byte {
+		if rng.IntN(3) == 0 {
+			return special[rng.IntN(len(special))]
+		}
+		return byte(rng.IntN(256))
+	}
+	switch k := rng.IntN(10); {
+	case k < 4:
+		return net.IP{pick(), pick(), pick(), pick()}
+	case k < 7:
+		ip := make(net.IP, 16)
+		for i := range ip {
+			ip[i] = pick()
+		}
+		return ip
+	case k < 8:
+		ip := make(net.IP, 16)
+		for j := rng.IntN(4); j >= 0; j-- {
+			ip[rng.IntN(16)] = pick()
+		}
+		return ip
+	case k < 9:
+		ip := make(net.IP, 16)
+		ip[10], ip[11] = 0xff, 0xff
+		ip[12], ip[13], ip[14], ip[15] = pick(), pick(), pick(), pick()
+		return ip
+	default:
+		ip := make(net.IP, 16)
+		ip[10], ip[11] = 0xff, 0xff
+		ip[12], ip[13], ip[14], ip[15] = pick(), pick(), pick(), pick()
+		ip[rng.IntN(12)] ^= 1 << rng.IntN(8)
+		return ip
+	}
+}
+
+// EditAlphabet is what random edits insert: digits, hex letters in both
+// cases, letters of the suffixes, junk, dots and a few non-ASCII look-alikes.
+var EditAlphabet = []string{
+	"0", "1", "2", "5", "6", "9", "a", "f", "A", "F", "g", "x", "i", "n", "p", "r", "-", "_", "+", ":",
+	".", ".", ".", "İ", "ı", "K", "١", " ",
+}
+
+// FlipCase flips the case of random ASCII letters.
+func FlipCase(rng *rand.Rand, s string) string {
+	b := []byte(s)
+	for i, c := range b {
+		if (c|0x20) >= 'a' && (c|0x20) <= 'z' && rng.IntN(2) == 0 {
+			b[i] = c ^ 0x20
+		}
+	}
+	return string(b)
+}
+
+// Edit applies one random edit to a name: insert / delete / replace /
+// duplicate a label or a character, case flips, dots.
+func Edit(rng *rand.Rand, s string) string {
+	labels := strings.Split(s, ".")
+	li := rng.IntN(len(labels))
+	randLabel := func() string {
+		switch rng.IntN(6) {
+		case 0:
+			return strconv.Itoa(rng.IntN(300))
+		case 1:
+			return "0" + strconv.Itoa(rng.IntN(30))
+		case 2:
+			return strconv.FormatInt(int64(rng.IntN(16)), 16)
+		case 3:
+			return strings.ToUpper(strconv.FormatInt(int64(rng.IntN(256)), 16))
+		case 4:
+			return labels[rng.IntN(len(labels))]
+		default:
+			return EditAlphabet[rng.IntN(len(EditAlphabet))] + EditAlphabet[rng.IntN(20)]
+		}
+	}
+	switch rng.IntN(12) {
+	case 0: // insert a label
+		labels = append(labels[:li], append([]string{randLabel()}, labels[li:]...)...)
+	case 1: // delete a label
+		labels = append(labels[:li:li], labels[li+1:]...)
+	case 2: // replace a label
+		labels[li] = randLabel()
+	case 3: // duplicate a label
+		labels = append(labels[:li+1], labels[li:]...)
+	case 4: // swap two adjacent labels
+		if li+1 < len(labels) {
+			labels[li], labels[li+1] = labels[li+1], labels[li]
+		}
+	case 5: // insert a character
+		ci := rng.IntN(len(s) + 1)
+		return s[:ci] + EditAlphabet[rng.IntN(len(EditAlphabet))] + s[ci:]
+	case 6: // delete a character
+		if len(s) > 0 {
+			ci := rng.IntN(len(s))
+			return s[:ci] + s[ci+1:]
+		}
+	case 7: // replace a character
+		if len(s) > 0 {
+			ci := rng.IntN(len(s))
+			return s[:ci] + EditAlphabet[rng.IntN(len(EditAlphabet))] + s[ci+1:]
+		}
+	case 8: // duplicate a character
+		if len(s) > 0 {
+			ci := rng.IntN(len(s))
+			return s[:ci+1] + s[ci:]
+		}
+	case 9:
+		return FlipCase(rng, s)
+	case 10:
+		return s + "."
+	default: // prepend labels
+		return randLabel() + "." + s
+	}
+	return strings.Join(labels, ".")
+}
+
+func record(args []string) error {
+	if len(args) != 4 {
+		return fmt.Errorf("usage: record <trace-out> <result> <cases> <logged>")
+	}
+	total, _ := strconv.Atoi(args[2])
+	logged, _ := strconv.Atoi(args[3])
+	if total <= 0 || logged <= 0 {
+		return fmt.Errorf("bad counts %q %q", args[2], args[3])
+	}
+	tr, err := vh.NewTrace(args[0])
+	if err != nil {
+		return err
+	}
+	res, err := vh.NewResult(args[1])
+	if err != nil {
+		return err
+	}
+	rng := vh.Rand(4)
+	stride := total / logged
+	if stride < 1 {
+		stride = 1
+	}
+	calls, accepts := 0, 0
+	dd := vh.NewDedup()
+	for i := 0; i < total; i++ {
+		log := i%stride == 0
+		ip := RandAddr(rng)
+		want := None()
+		if u := ip.To4(); u != nil {
+			want = Res{Ok: true, Fam: 4, Bits: 32, Bytes: []int{int(u[0]), int(u[1]), int(u[2]), int(u[3])}}
+		} else {
+			want = Res{Ok: true, Fam: 6, Bits: 128, Bytes: []int{}}
+			for _, b := range ip {
+				want.Bytes = append(want.Bytes, int(b))
+			}
+		}
+		var name string
+		var eerr error
+		calls++
+		if pv, p := vh.Try(func() { name, eerr = netutil.IPToReversedAddr(ip) }); p || eerr != nil {
+			res.Mismatch(fmt.Sprintf("IPToReversedAddr(%v)", []byte(ip)), fmt.Sprintf("panic %v / error %v for a valid address", pv, eerr), nil)
+			continue
+		}
+		dd.Add([]byte(name))
+		if log {
+			ints := make([]int, len(ip))
+			for j, b := range ip {
+				ints[j] = int(b)
+			}
+			tr.Emit(Event{Op: "enc", IP: ints, Name: Tokens(name), Bytes: []int{}})
+		}
+		// The round-trip identity itself, in a random spelling.
+		spell := name
+		if rng.IntN(2) == 0 {
+			spell = FlipCase(rng, spell)
+		}
+		if rng.IntN(2) == 0 {
+			spell += "."
+		}
+		calls++
+		relIP := func(x string) (string, Detail) { return JudgeIP(x, nil) }
+		okRT := true
+		if what, d := JudgeIP(spell, &want); what != "" {
+			okRT = false
+			d.Note = "round trip of " + ip.String()
+			ReportShrunk(res, "IPFromReversedAddr", spell, what, d, relIP)
+		}
+		if log && okRT {
+			tr.Emit(EventOf("ip", spell, true, want))
+		}
+		// Random edits of the canonical name: one to three, cumulative.
+		s := spell
+		for k := 1 + rng.IntN(3); k > 0; k-- {
+			s = Edit(rng, s)
+		}
+		if len(s) > 300 {
+			continue
+		}
+		dd.Add([]byte(s))
+		calls++
+		// Transliteration-free oracle: totality, error type and the
+		// statement's own relation on whatever is accepted.
+		what, d := JudgeIP(s, nil)
+		if what == "" && !d.Got.Ok && CanonString(s) == name {
+			what = "rejected a spelling of the canonical name of " + ip.String()
+			d.Want = want
+		}
+		if what != "" {
+			ReportShrunk(res, "IPFromReversedAddr", s, what, d, relIP)
+			continue
+		}
+		if d.Got.Ok {
+			accepts++
+		}
+		if log {
+			tr.Emit(EventOf("ip", s, true, d.Got))
+		}
+	}
+	if err := tr.Close(); err != nil {
+		return err
+	}
+	return res.Close(map[string]any{"cases": total, "calls": calls, "events": tr.N, "edited_accepts": accepts, "distinct_nontrivial": dd.N()})
+}
+
+// ------------------------------------------------------------ probe (--replay)
+
+// probe re-executes one call and prints the observation as JSON.
+func probe(args []string) error {
+	if len(args) != 2 {
+		return fmt.Errorf("usage: probe <func> <input>")
+	}
+	out := map[string]any{"func": args[0], "input": args[1]}
+	switch args[0] {
+	case "IPFromReversedAddr":
+		r, err, pv, p := CallIP(args[1])
+		out["got"] = r
+		if err != nil {
+			out["err"] = err.Error()
+		}
+		if p {
+			out["panic"] = fmt.Sprint(pv)
+		}
+	case "IPToReversedAddr":
+		var bs []int
+		if err := json.Unmarshal([]byte(args[1]), &bs); err != nil {
+			return err
+		}
+		var name string
+		var err error
+		pv, p := vh.Try(func() { name, err = netutil.IPToReversedAddr(ipOf(bs)) })
+		out["got"] = name
+		if err != nil {
+			out["err"] = err.Error()
+		}
+		if p {
+			out["panic"] = fmt.Sprint(pv)
+		}
+	default:
+		return fmt.Errorf("unknown function %q", args[0])
+	}
+	b, _ := json.Marshal(out)
+	fmt.Println(string(b))
+	return nil
+}
